@@ -69,7 +69,12 @@ type Device struct {
 	FaultsFired map[string]int
 	// Legal warnings the device prints for certain commands.
 	LegalWarn bool
-	k         int
+	// JoinReplies: the answers to two commands that arrived in one packet
+	// are delivered in one packet, too (otherwise the second answer is
+	// delivered only after the tool has digested the first one).
+	JoinReplies bool
+	held        string
+	k           int
 	sysMode   bool
 	stalled   bool
 }
@@ -389,7 +394,13 @@ func (d *Device) Serve() {
 				out = "INFO: something harmless happened (injected)\n"
 			}
 		}
-		s.Send(echo + "\n" + out + d.prompt())
+		resp := d.held + echo + "\n" + out + d.prompt()
+		d.held = ""
+		if d.JoinReplies && s.Pending() && (f == nil || f.Kind == "banner") {
+			d.held = resp
+			continue
+		}
+		s.Send(resp)
 	}
 }
 
@@ -670,7 +681,25 @@ func (d *Device) doSave(f *Fault) string {
 		if !ok {
 			return ""
 		}
-		d.rec("save", a)
+		r := d.rec("save", a)
+		if fl := d.fault(d.k); fl != nil {
+			r.Fault = fl.Kind
+			d.fired(fl)
+			switch fl.Kind {
+			case "stall":
+				d.stall()
+				return "\x00"
+			case "close", "close-after-echo":
+				s.CloseFromDevice()
+				return "\x00"
+			case "slow":
+				time.Sleep(time.Duration(fl.Arg) * time.Second)
+			default:
+				// The save fails after the confirmation.
+				s.Send(a + "\nBuilding configuration...\n% Compressed configuration is too large for nvram\n%Error: startup-config not written\n" + d.prompt())
+				return "\x00"
+			}
+		}
 		d.Startup = d.Node.Conf.Clone()
 		d.Saved++
 		d.Log.Add("dev", "configuration saved")
